@@ -187,6 +187,11 @@ func (g *Gen) uncontracted(fr *Frame, st *State, c *ssa.CallCommon, args []Val, 
 			g.note("uncontracted call havocs the whole heap: " + what)
 		}
 	}
+	if pure {
+		nt := g.freshConst("top", "Int")
+		g.assume(st, sx(">=", nt, st.top))
+		st.top = nt
+	}
 	// cells passed by address
 	for _, a := range args {
 		if a.P != nil && a.P.Kind == PCell {
@@ -215,6 +220,10 @@ func (g *Gen) applyContract(fr *Frame, st *State, con *FuncContract, sig *types.
 	g.usedContracts[key] = con
 	g.callSeq["call:"+key]++
 	seq := g.callSeq["call:"+key]
+	// contract expressions are resolved in the scope of the package whose contract file declares them
+	if cp, ok := g.P.allPkgs[con.PkgPath]; ok {
+		pkg = cp.Types
+	}
 	env := &Env{g: g, st: st, old: st, vars: map[string]CV{}, bound: map[string]CV{}, pkg: pkg}
 	// parameter names
 	var ptypes []types.Type
@@ -265,6 +274,12 @@ func (g *Gen) applyContract(fr *Frame, st *State, con *FuncContract, sig *types.
 		}
 	} else if con.Trusted || len(con.Ensures) > 0 {
 		// no modifies clause: nothing is modified (checked by the frame obligations of the callee when not trusted)
+	}
+	// the callee may allocate: the allocation frontier moves (results may be fresh)
+	{
+		nt := g.freshConst("top", "Int")
+		g.assume(st, sx(">=", nt, st.top))
+		st.top = nt
 	}
 	// results
 	results := sig.Results()
